@@ -326,3 +326,67 @@ Proof.
     apply cstr_nulfree. unfold D2.okb, Spec.str_okb in Hok. apply andb_true_iff in Hok. destruct Hok as [_ Hn]. exact Hn.
 Qed.
 End EltOk.
+
+(* ---- the same without assuming that the second encoding succeeds: Proofs/EncWbxmlSuccess.v carries success (and a size bound
+   in terms of the SOURCE tree) from the first encoding to the encoding of the normalised tree ---- *)
+From Wbxml Require Proofs.EncWbxmlSize Proofs.EncWbxmlSize2 Proofs.EncWbxmlSuccess.
+Module SZ2 := Wbxml.Proofs.EncWbxmlSize2.
+Module SU := Wbxml.Proofs.EncWbxmlSuccess.
+
+Section EndToEndW2.
+Variables (main TBL : list lang) (btbl : list E.blang) (sub : E.bytes -> XF.xtree + N).
+
+Theorem roundtrip_and_idempotence_wide_total evs expat_ok o doc w (L : lang) tag attrs ch o' :
+  let e := E.enc_env (D2.to_blang L) o in
+  let wa := E.has_attr_table e in
+  let root := E.NElt tag attrs ch in
+  let R2 := E.NElt tag attrs (flat_map (TN.norm_node (E.o_keep_ws o) false) ch) in
+  let root' := tnodeW wa R2 in
+  let xl := X.xlang_of L in
+  let xo := X.opts_of_params (gen_of (wo_gen o')) (wo_indent o') (wo_keep_ws o') in
+  let nmx := to_tname L (TK.tag_event tag) in
+  let ax := map to_attr (if wa then map D2.attr_event attrs else []) in
+  r_out (ConvXml2Wbxml.xml2wbxml_events main btbl sub evs expat_ok o doc) = Some w ->
+  (forall t0, XF.tree_from_xml main sub doc evs expat_ok = inl t0 ->
+     E.find_lang btbl (XF.xt_lang t0) = Some (D2.to_blang L) /\ XF.xt_roots t0 = [root]) ->
+  Proofs.EncWbxmlAbs.plain_env e = true -> D2.vals_ok L = true -> l_exts L = None ->
+  TK.tree_ok3 L 0 root = true ->
+  (* no empty row name in the attribute-value table, no empty element or attribute name, a tree whose output fits 32 bits *)
+  Proofs.EncWbxmlSize.lang_vals_ok (D2.to_blang L) -> SZ2.names_ok root ->
+  N.of_nat (33 * SZ2.wsize 0 root + SZ2.hdr (D2.to_blang L)) < 4294967296 ->
+  find (fun y => l_id y =? l_id L) TBL = Some L ->
+  lang_choiceW TBL L e (wo_lang o') -> wo_charset o' = 0 ->
+  E.o_version o < 4 -> E.header_public_id e < 4294967296 -> E.header_public_id e <> 0 ->
+  (match Proofs.EncWbxmlAbs.header_pid e with Some p => D2.okb p = true | None => True end) ->
+  no_data (D3.doc_events3 L e (E.o_keep_ws o) root) = true ->
+  src_okW L xo wa 0 root -> E.find_lang btbl (l_id L) = Some (D2.to_blang L) ->
+  LangSelect.search_table main (option_map XF.str (X.xl_pub xl)) (Some (XF.str (X.xl_dtd xl))) None = Some L ->
+  X.is_indent xo = false -> X.is_syncml xl = false -> keep_compatible (E.o_keep_ws o) xo ->
+  XP.lang_ok xl = true -> XI.node_ok_g xl xo X.proot None (to_xnode TBL L root') = true ->
+  exists x c d w2,
+    wbxml2xml_model TBL o' w = mk_res ST_OK (Some (x ++ [0])) (N.of_nat (length x)) /\
+    X.enc_xml_opts xl xo [to_xnode TBL L root'] = X.XOk x /\
+    d = XP.doc_of xl [XR.XE (X.tname_bytes nmx) (XP.spec_attrs xl xo X.proot nmx ax) c] /\
+    (forall fuel, (XP.node_fuel (to_xnode TBL L root') + 2 <= fuel)%nat -> XR.read_xml fuel x = XR.ROk d) /\
+    events_of_info_ns d = XV.doc_events L (X.xl_root xl) (Some (X.xl_dtd xl)) (X.xl_pub xl) R2 /\
+    forall doc2, doc2 <> [] ->
+      XF.tree_from_xml main sub doc2 (events_of_info_ns d) true = inl (XF.mk_xtree (l_id L) 0 [R2]) /\
+      r_out (ConvXml2Wbxml.xml2wbxml_events main btbl sub (events_of_info_ns d) true o doc2) = Some w2 /\
+      wbxml2xml_model TBL o' w2 = mk_res ST_OK (Some (x ++ [0])) (N.of_nat (length x)).
+Proof.
+  intros e wa root R2 root' xl xo nmx ax H1 Hfront HP HV HX HT HVO HNO Hsize HFind Hch Hcs Hv Hp1 Hp0 Hpid Hnd Hsrc Hfl Hst Hcomp Hsyn Hkc Hlok Hok.
+  (* the first encoding *)
+  assert (He1 : E.enc_wbxml btbl (D2.to_blang L) o [root] = E.EOk w).
+  { revert H1. unfold ConvXml2Wbxml.xml2wbxml_events, conv_run. destruct doc as [|d0 dr]; [discriminate|].
+    destruct (XF.tree_from_xml main sub (d0 :: dr) evs expat_ok) as [t0|er] eqn:Et; [|discriminate].
+    destruct (Hfront t0 eq_refl) as [Hl Hroots]. unfold ConvXml2Wbxml.encode_tree. rewrite Hl, Hroots.
+    destruct (E.enc_wbxml btbl (D2.to_blang L) o [root]) as [bs|ee]; [|discriminate]. cbn [r_out]. intros H. injection H as ->. reflexivity. }
+  destruct (SU.enc_norm_success btbl L o (E.o_keep_ws o) tag attrs ch w HP HVO HNO HT He1) as (_ & _ & w2 & He2 & Hs2 & Hs1).
+  unfold root in Hsize.
+  assert (Hlen : E.len w < 4294967296) by (unfold E.len; lia).
+  assert (Hlen2 : E.len w2 < 4294967296) by (unfold E.len; lia).
+  destruct (roundtrip_and_idempotence_wide main TBL btbl sub evs expat_ok o doc w L tag attrs ch o' w2 H1 Hlen Hfront HP HV HX HT HFind Hch Hcs Hv Hp1 Hp0 Hpid Hnd Hsrc Hfl Hst
+              Hcomp Hsyn Hkc Hlok Hok He2 Hlen2) as (x & c & d & Hrest).
+  exists x, c, d, w2. exact Hrest.
+Qed.
+End EndToEndW2.
